@@ -4,12 +4,17 @@ use crate::props::pp::{self, Oracles};
 
 pub fn build(tier: Tier) -> Check<'static> {
     let mut c = Check::new("C04", tier, "6/C04");
-    c.rule = "every program = [prefix define/undef/undefineall] marker chain marker probes, chain = `ifdef|`ifndef over names {A, B, __LINE__} with 0-2 `elsif and optional `else, branch bodies of 0-1 items from {text, define, undef, define without body, usage of an undefined macro, include of a missing file, comments}, plus chains whose taken/dead branch holds a nested chain; x 5 initial tables x layouts; non-trivial = model and implementation both produce output or both an error, distinct by construction".into();
+    c.rule = "every program = [prefix define/undef/undefineall] marker chain marker probes, chain = `ifdef|`ifndef over names {A, B, __LINE__} with 0-2 `elsif and optional `else, branch bodies of 0-1 items from {text, define, undef, define without body, usage of an undefined macro, include of a missing file, comments}, plus chains whose taken/dead branch holds a nested chain; x 5 initial tables x layouts; plus macros whose text holds directives (executed when the macro is used); non-trivial = model and implementation both produce output or both an error, distinct by construction".into();
     c.assumptions = vec!["reference preprocessor models/ppref.rs (first true branch, table threaded, predefined names)".into()];
     let sp = pp::cond_profile(tier == Tier::Quick, true);
     let or = Oracles { lexemes: true, ..Default::default() };
     c.parts.push(Part::new("cond-profile", sp.len(), "conditional profile", move |i, acc| {
         pp::check_prog(acc, &sp.get(i), or, "conditional profile");
+    }));
+    let sp = pp::directive_body_profile();
+    let or = Oracles { lexemes: true, table: true, ..Default::default() };
+    c.parts.push(Part::new("directive-bodies", sp.len(), "8 macro texts holding `undef / `undefineall / `define / conditional chains (macro from the source or from the caller) x 4 prefixes x usage before the chain or inside its then / `elsif / `else branch x chain forms x 2 layouts: tokens and returned table", move |i, acc| {
+        pp::check_prog(acc, &sp.get(i), or, "directive bodies");
     }));
     c
 }
